@@ -42,7 +42,7 @@ pub fn test_case(case: &TrainCase) -> TestResult {
     let _ = verif_hooks::take_train_record();
     // the examples actually handed to the learner (for the train/predict consistency clause)
     let stored = trainer.verif_examples();
-    let model = match trainer.train(0.01, 1.0, train::solver_of(cfg.solver)) {
+    let model = match util::train_deterministic(|| trainer.train(0.01, 1.0, train::solver_of(cfg.solver))) {
         Ok(m) => m,
         Err(_) => return Ok(Info::new(false).class(true, "skipped:train-returned-error")),
     };
